@@ -278,6 +278,21 @@ def _quirks():
         q["nameMismatchRemoves"] = "remove" in calls
     else:
         raise ExtractionError("BlockBase.match: trailing name check changed shape")
+    # Outer/Inner_Shared_Do_Construct.match: restore on failure or not
+    shapes = []
+    for cls in (Fortran2003.Outer_Shared_Do_Construct, Fortran2003.Inner_Shared_Do_Construct):
+        t2 = ast.parse(textwrap.dedent(inspect.getsource(cls.__dict__["match"].__func__)))
+        restores = any(isinstance(c, ast.Call) and getattr(c.func, "attr", "") == "restore_reader"
+                       for c in ast.walk(t2))
+        catches = any(isinstance(hd, ast.ExceptHandler) and "NoMatchError" in ast.dump(hd.type)
+                      for hd in ast.walk(t2) if isinstance(hd, ast.ExceptHandler))
+        shapes.append((restores, catches))
+    if shapes == [(False, False)] * 2:
+        q["seqRestores"] = False
+    elif shapes == [(True, True)] * 2:
+        q["seqRestores"] = True
+    else:
+        raise ExtractionError("shared-DO match methods have an unmodelled shape: %s" % shapes)
     return q
 
 
@@ -567,7 +582,8 @@ def render_lean(t):
     q = t["quirks"]
     L.append("    quirks := { %s }" % ", ".join(
         "%s := %s" % (k, _b(q[k])) for k in ["main0Finally", "catchInternalSyntax",
-                                             "nameMismatchSyntax", "nameMismatchRemoves"]))
+                                             "nameMismatchSyntax", "nameMismatchRemoves",
+                                             "seqRestores"]))
     L.append("  }")
     L.append("")
     L.append("def program : Cls := %d" % t["program"])
